@@ -15,7 +15,9 @@ func init() {
 		Assumptions: []string{"types bounded as in DESIGN §6; values are the boundary universe composed with at most two non-default fields per struct level",
 			"expected values come from the reference model ref.Expect, never from plenc"},
 		Work: c01Work,
-		Post: func(a *mc.Agg) []string { return needDims(a, "pos:top", "pos:field", "pos:elem", "pos:mapval", "pos:mapkey", "pos:ptrfield", "cfg:default", "cfg:both") },
+		Post: func(a *mc.Agg) []string {
+			return needDims(a, "pos:top", "pos:field", "pos:elem", "pos:mapval", "pos:mapkey", "pos:ptrfield", "cfg:default", "cfg:both")
+		},
 	})
 }
 
